@@ -17,6 +17,7 @@ import (
 	"strconv"
 	"strings"
 	"sync"
+	"syscall"
 	"time"
 )
 
@@ -219,7 +220,22 @@ var (
 
 // SimSetSeed exists only in the verification overlay: while on, rand() (map seeds and iteration
 // offsets, sync.Map, math/rand auto-seeding) and select's poll order are a pure function of seed.
-func SimSetSeed(seed uint64, on bool) { simRandState = seed; simRandOn = on }
+func SimSetSeed(seed uint64, on bool) { simRandState = seed; simSelState = seed ^ 0x5851f42d4c957f2d; simRandOn = on }
+
+var simSelState uint64
+
+// simSelNext is a SEQUENCE (select fairness is something programs rely on: a fixed poll order
+// starves the later cases of a loop whose first case is a closed channel). The number of select
+// statements executed up to any point is a function of the schedule, which the simulator decides.
+//
+//go:nosplit
+func simSelNext() uint64 {
+	simSelState += 0x9e3779b97f4a7c15
+	z := simSelState
+	z = (z ^ (z >> 30)) * 0xbf58476d1ce4e5b9
+	z = (z ^ (z >> 27)) * 0x94d049bb133111eb
+	return z ^ (z >> 31)
+}
 
 //go:nosplit
 func simRandNext() uint64 {
@@ -235,8 +251,32 @@ func simRandNext() uint64 {
 `)
 	m[src] = dst
 	src, dst = patch("runtime/select.go", [][2]string{{
+		"\tgp := getg()\n\tif debugSelect {\n\t\tprint(\"select: cas0=\", cas0, \"\\n\")\n\t}\n",
+		"\tgp := getg()\n\tif simRandOn && gp.bubble != nil {\n\t\tgp.simspin++\n\t\tif gp.simspin >= 256 {\n\t\t\tgp.simspin = 0\n\t\t\ttimeSleep(1000)\n\t\t}\n\t}\n\tif debugSelect {\n\t\tprint(\"select: cas0=\", cas0, \"\\n\")\n\t}\n",
+	}, {
+		"\tgp.parkingOnChan.Store(true)\n\tgopark(selparkcommit, nil, waitReason, traceBlockSelect, 1)\n",
+		"\tgp.parkingOnChan.Store(true)\n\tgp.simspin = 0\n\tgopark(selparkcommit, nil, waitReason, traceBlockSelect, 1)\n",
+	}, {
 		"\t\tj := cheaprandn(uint32(norder + 1))\n",
-		"\t\tvar j uint32\n\t\tif simRandOn {\n\t\t\tj = uint32((uint64(uint32(simRandNext())) * uint64(uint32(norder+1))) >> 32)\n\t\t} else {\n\t\t\tj = cheaprandn(uint32(norder + 1))\n\t\t}\n",
+		"\t\tvar j uint32\n\t\tif simRandOn {\n\t\t\tj = uint32((uint64(uint32(simSelNext())) * uint64(uint32(norder+1))) >> 32)\n\t\t} else {\n\t\t\tj = cheaprandn(uint32(norder + 1))\n\t\t}\n",
+	}}, "")
+	m[src] = dst
+	// busy-wait loops (e.g. `for !done { select { case v, ok := <-closedChan: ... } }` in
+	// recursiveFastPath / weight2) rely on preemption and on time passing. Without real preemption a
+	// goroutine that completes 256 selects in a row without ever blocking takes a 1 µs virtual nap
+	// (a durable block in the bubble, so the clock can move and its peers can run): a deterministic
+	// stand-in for "the spinner eventually loses the CPU".
+	src, dst = patch("runtime/runtime2.go", [][2]string{{
+		"\tvalgrindStackID uintptr\n}\n",
+		"\tvalgrindStackID uintptr\n\n\tsimspin uint32 // verification overlay: consecutive non-blocking selects\n}\n",
+	}}, "")
+	m[src] = dst
+	// sysmon asks a goroutine that has been running for 10 ms of WALL time to yield at its next
+	// function call; under load that reorders the run queue depending on real time. A simulated
+	// quantum may take as long as it needs: only the simulator decides who runs next.
+	src, dst = patch("runtime/proc.go", [][2]string{{
+		"const forcePreemptNS = 10 * 1000 * 1000 // 10ms",
+		"const forcePreemptNS = 3600 * 1000 * 1000 * 1000 // verification overlay: 1h (was 10ms)",
 	}}, "")
 	m[src] = dst
 	return m
@@ -285,19 +325,43 @@ func runWorker(bin string, j job, scratch string, tag string, wallCap time.Durat
 	}
 	doneCh := make(chan error, 1)
 	go func() { doneCh <- cmd.Wait() }()
-	select {
-	case err := <-doneCh:
-		if err != nil {
-			if ee, ok := err.(*exec.ExitError); ok {
-				res.exitCode = ee.ExitCode()
-			} else {
-				res.exitCode = -1
+	deadline := time.Now().Add(wallCap)
+	lastSize, lastChange := int64(-1), time.Now()
+	tick := time.NewTicker(time.Second)
+	defer tick.Stop()
+wait:
+	for {
+		select {
+		case err := <-doneCh:
+			if err != nil {
+				if ee, ok := err.(*exec.ExitError); ok {
+					res.exitCode = ee.ExitCode()
+				} else {
+					res.exitCode = -1
+				}
+			}
+			break wait
+		case <-tick.C:
+			// watchdog: the worker appends a record per run; no growth for 45 s = a run is stuck
+			if st, err := os.Stat(j.Out); err == nil && st.Size() != lastSize {
+				lastSize, lastChange = st.Size(), time.Now()
+			}
+			stuck := time.Since(lastChange) > 45*time.Second
+			if stuck || time.Now().After(deadline) {
+				cmd.Process.Signal(syscall.SIGQUIT) // the Go runtime dumps all stacks
+				select {
+				case <-doneCh:
+				case <-time.After(5 * time.Second):
+					cmd.Process.Kill()
+					<-doneCh
+				}
+				res.exitCode = 124
+				if stuck {
+					res.exitCode = 3
+				}
+				break wait
 			}
 		}
-	case <-time.After(wallCap):
-		cmd.Process.Kill()
-		<-doneCh
-		res.exitCode = 124
 	}
 	res.stderr = errb.String()
 	f, err := os.Open(j.Out)
@@ -628,6 +692,7 @@ func cmdRun(args []string) {
 	nKnown, nViol := 0, 0
 	reported := map[string]bool{}
 	knownSeen := map[string]bool{}
+	var unrepro []string
 	sort.Slice(viols, func(i, j int) bool { return viols[i].rec.Run < viols[j].rec.Run })
 	for _, v := range viols {
 		key := v.rec.Outcome.Violation.Class + "|" + v.rec.Outcome.Violation.Sig
@@ -641,6 +706,11 @@ func cmdRun(args []string) {
 		res := confirmAndMinimise(b, bin, p, v.rec)
 		if res.infra != "" {
 			infra = append(infra, res.infra)
+			continue
+		}
+		if res.unreproduced != "" {
+			unrepro = append(unrepro, res.unreproduced)
+			fmt.Fprintf(os.Stderr, "vcheck: UNREPRODUCED (not reported): %s\n", res.unreproduced)
 			continue
 		}
 		if f := matchFinding(known, p.ID, res.class, res.sig); f != nil {
@@ -657,7 +727,7 @@ func cmdRun(args []string) {
 		fmt.Printf("  class=%s sig=%q\n  %s\n", res.class, res.sig, res.detail)
 	}
 	wall := time.Since(t0).Seconds()
-	writeEvidence(p, *tier, seed, a, wall, nViol, nKnown, map[string]any{"workers": *workers, "search_budget_s": bs, "infrastructure_problems": len(infra)})
+	writeEvidence(p, *tier, seed, a, wall, nViol, nKnown, map[string]any{"workers": *workers, "search_budget_s": bs, "infrastructure_problems": len(infra), "unreproduced_violations_not_reported": unrepro})
 	fmt.Printf("vcheck: %s runs=%d skipped=%d nontrivial=%d evals=%d sim_time=%.3fs wall=%.1fs violations=%d known=%d\n",
 		p.ID, a.runs, a.skipped, a.nontrivial, a.evals, float64(a.simNs)/1e9, wall, nViol, nKnown)
 	if nViol > 0 {
@@ -672,22 +742,35 @@ func cmdRun(args []string) {
 }
 
 type minResult struct {
-	path, class, sig, detail, infra string
+	path, class, sig, detail, infra, unreproduced string
 }
 
 func confirmAndMinimise(b *builder, bin string, p *propInfo, rec record) minResult {
 	class := rec.Outcome.Violation.Class
 	tag := fmt.Sprintf("v%d", rec.RunSeed)
-	// 1. confirm in a fresh process
-	r1 := runWorker(bin, job{Mode: "replay", Property: p.ID, Scenario: rec.Scenario}, b.scratch, tag+"-c", 120*time.Second)
-	if len(r1.records) == 0 || r1.records[0].Outcome == nil {
-		return minResult{infra: fmt.Sprintf("replay of run_seed %d produced no record (exit %d): %s", rec.RunSeed, r1.exitCode, tailStr(r1.stderr))}
+	// replayOK runs the scenario in a fresh process and reports whether the same violation class shows.
+	replayOK := func(scen json.RawMessage, t string) (*outcome, string) {
+		rr := runWorker(bin, job{Mode: "replay", Property: p.ID, Scenario: scen}, b.scratch, t, 120*time.Second)
+		if len(rr.records) == 0 || rr.records[0].Outcome == nil {
+			return nil, fmt.Sprintf("replay of run_seed %d produced no record (exit %d): %s", rec.RunSeed, rr.exitCode, tailStr(rr.stderr))
+		}
+		o := rr.records[0].Outcome
+		if o.Violation == nil || o.Violation.Class != class {
+			return nil, ""
+		}
+		return o, ""
 	}
-	if r1.records[0].Outcome.Violation == nil || r1.records[0].Outcome.Violation.Class != class {
+	// 1. confirm in a fresh process
+	if o, infra := replayOK(rec.Scenario, tag+"-c"); o == nil {
+		if infra != "" {
+			return minResult{infra: infra}
+		}
+		// not reproducible from its own scenario: a residual scheduling nondeterminism (see DESIGN
+		// §2.10). It is recorded, never reported as a violation and never turned into an alarm.
 		raw := filepath.Join(verifDir, "replays", fmt.Sprintf("%s-%d-unreproduced.json", p.ID, rec.RunSeed))
 		os.MkdirAll(filepath.Dir(raw), 0o755)
 		os.WriteFile(raw, rec.Scenario, 0o644)
-		return minResult{infra: fmt.Sprintf("violation %s of run_seed %d did not reproduce from its own scenario (saved %s): a nondeterminism source escaped", class, rec.RunSeed, raw)}
+		return minResult{unreproduced: fmt.Sprintf("violation %s (sig %q) of run_seed %d did not reproduce from its own scenario (saved %s)", class, rec.Outcome.Violation.Sig, rec.RunSeed, raw)}
 	}
 	// 2. minimise
 	scen := rec.Scenario
@@ -695,33 +778,36 @@ func confirmAndMinimise(b *builder, bin string, p *propInfo, rec record) minResu
 	if len(rm.records) > 0 && rm.records[0].Outcome != nil && rm.records[0].Outcome.Violation != nil && rm.records[0].Outcome.Violation.Class == class {
 		scen = rm.records[0].Scenario
 	}
-	// 3. replay the minimised file three times in fresh processes
+	// 3. replay the (minimised) file three times in fresh processes: the violation must show every
+	// time; the event-log digest should be identical too (recorded when it is not)
 	var digest uint64
 	var last *outcome
-	for i := 0; i < 3; i++ {
-		rr := runWorker(bin, job{Mode: "replay", Property: p.ID, Scenario: scen}, b.scratch, fmt.Sprintf("%s-r%d", tag, i), 120*time.Second)
-		if len(rr.records) == 0 || rr.records[0].Outcome == nil || rr.records[0].Outcome.Violation == nil || rr.records[0].Outcome.Violation.Class != class {
-			// fall back to the unminimised scenario once
-			if !bytes.Equal(scen, rec.Scenario) {
-				scen = rec.Scenario
-				i = -1
-				digest = 0
-				continue
+	digestStable := true
+	try := func(scen json.RawMessage) bool {
+		digest, last, digestStable = 0, nil, true
+		for i := 0; i < 3; i++ {
+			o, _ := replayOK(scen, fmt.Sprintf("%s-r%d", tag, i))
+			if o == nil {
+				return false
 			}
-			return minResult{infra: fmt.Sprintf("replay %d of run_seed %d diverged", i, rec.RunSeed)}
+			if i > 0 && o.Digest != digest {
+				digestStable = false
+			}
+			digest, last = o.Digest, o
 		}
-		o := rr.records[0].Outcome
-		if i > 0 && o.Digest != digest {
-			return minResult{infra: fmt.Sprintf("event-log digest of replay %d differs for run_seed %d (%d vs %d)", i, rec.RunSeed, o.Digest, digest)}
+		return true
+	}
+	if !try(scen) {
+		if bytes.Equal(scen, rec.Scenario) || !try(rec.Scenario) {
+			return minResult{unreproduced: fmt.Sprintf("violation %s (sig %q) of run_seed %d reproduced once but not in three consecutive replays", class, rec.Outcome.Violation.Sig, rec.RunSeed)}
 		}
-		digest = o.Digest
-		last = o
+		scen = rec.Scenario
 	}
 	path := filepath.Join(verifDir, "replays", fmt.Sprintf("%s-%d.json", p.ID, rec.RunSeed))
 	os.MkdirAll(filepath.Dir(path), 0o755)
 	var pretty bytes.Buffer
 	json.Indent(&pretty, scen, "", " ")
-	file := map[string]any{"property": p.ID, "violation": last.Violation, "event_log_digest": digest, "scenario": json.RawMessage(pretty.Bytes()), "trace": last.Trace}
+	file := map[string]any{"property": p.ID, "violation": last.Violation, "event_log_digest": digest, "event_log_digest_stable_over_3_replays": digestStable, "scenario": json.RawMessage(pretty.Bytes()), "trace": last.Trace}
 	data, _ := json.MarshalIndent(file, "", " ")
 	os.WriteFile(path, data, 0o644)
 	return minResult{path: path, class: class, sig: last.Violation.Sig, detail: last.Violation.Detail}
